@@ -23,7 +23,8 @@ NT, NP = R.NT, R.NP
 TD, TF, TC = R.T_DONE, R.T_FAILED, R.T_CANCELED
 PD, PF, PC = R.P_DONE, R.P_FAILED, R.P_CANCELED
 
-DEVS = ['DevFinalRaise', 'DevPilotCbAll', 'DevPilotCbCanceled', 'DevPBatchFirst', 'DevPFinalRaise']
+DEVS = ['DevFinalRaise', 'DevPilotCbAll', 'DevPilotCbCanceled', 'DevPBatchFirst', 'DevPFinalRaise',
+        'DevRemovedUnwatched']
 
 INV_C06 = ['Monotone', 'AtMostOnce', 'GapsFilled', 'BatchIsolation']
 INV_C13 = ['OwnFail', 'OthersKeep']
@@ -35,9 +36,9 @@ WORKERS = 8
 
 
 def _scen(NT=NT, NP=NP, tasks=('t1', 't2'), unk=(), pilots=(), punk=(), ptypes=('pilot',),
-          mb=1, mpb=0, bindat=R.BIND_AT, early=False, direct=False):
+          mb=1, mpb=0, bindat=R.BIND_AT, early=False, direct=False, remove=False):
     return dict(NT=NT, NP=NP, tasks=tasks, unk=unk, pilots=pilots, punk=punk, ptypes=ptypes,
-                mb=mb, mpb=mpb, bindat=bindat, early=early, direct=direct)
+                mb=mb, mpb=mpb, bindat=bindat, early=early, direct=direct, remove=remove)
 
 
 # small-scope instances of the design model, exhaustive
@@ -48,6 +49,12 @@ SCENARIOS = {
     # C13: every assignment x every task state x every order of pilot deaths
     'death-q' : _scen(NT=4, NP=2, tasks=('t1', 't2'), pilots=('p1', 'p2'), mb=1, bindat=2,
                       early=True, direct=True),
+    # C13 through the pmgr -> pilot -> tmgr chain; pilots may also be removed from
+    # the task manager, in any order relative to bindings and deaths
+    'chain-q' : _scen(NT=3, NP=2, tasks=('t1',), pilots=('p1', 'p2'), mb=1, mpb=1, bindat=1,
+                      early=True, remove=True),
+    'chain-t' : _scen(NT=3, NP=3, tasks=('t1', 't2'), pilots=('p1', 'p2'), mb=1, mpb=2, bindat=1,
+                      early=True, remove=True),
     'death-t' : _scen(NT=4, NP=2, tasks=('t1', 't2', 't3'), pilots=('p1', 'p2'), mb=1, bindat=2,
                       early=True, direct=True),
     # C14a: two pilots + an unknown one, every batch of <= 2 entries; the task
@@ -61,15 +68,15 @@ SCENARIOS = {
 # instances with the real state chains, simulated to obtain behaviours
 SIM = {
     'sim-tasks' : _scen(tasks=('t1', 't2', 't3'), unk=('tx',), pilots=('p1', 'p2'), mb=4,
-                        early=True, direct=True),
+                        early=True, direct=True, remove=True),
     'sim-pilots': _scen(tasks=('t1', 't2'), pilots=('p1', 'p2'), punk=('px',),
-                        ptypes=('pilot', 'task', 'none'), mb=2, mpb=3, early=True),
+                        ptypes=('pilot', 'task', 'none'), mb=2, mpb=3, early=True, remove=True),
 }
 
-PLAN = {   # property -> (exhaustive scenario quick / thorough, simulated instances)
-    'C06': ('tasks-q',  'tasks-t',  ['sim-tasks']),
-    'C13': ('death-q',  'death-t',  ['sim-tasks', 'sim-pilots']),
-    'C14': ('pilots-q', 'pilots-t', ['sim-pilots']),
+PLAN = {   # property -> (exhaustive scenarios quick / thorough only, simulated instances)
+    'C06': (['tasks-q'],  ['tasks-t'],  ['sim-tasks']),
+    'C13': (['death-q', 'chain-q'],  ['death-t', 'chain-t'],  ['sim-tasks', 'sim-pilots']),
+    'C14': (['pilots-q'], ['pilots-t'], ['sim-pilots']),
 }
 
 # deviation -> (scenario, invariants, properties, expected violation or None)
@@ -78,7 +85,8 @@ DEVIATIONS = {
             ('DevFinalRaise',      'tasks-q',  ['GapsFilled'],     [], 'GapsFilled'),
             ('DevPilotCbCanceled', 'death-q',  [], ['FinalSticky'],    'FinalSticky')],
     'C13': [('DevPilotCbAll',      'death-q',  INV_C13, [], 'OthersKeep'),
-            ('DevPilotCbCanceled', 'death-q',  INV_C13, [], 'OthersKeep')],
+            ('DevPilotCbCanceled', 'death-q',  INV_C13, [], 'OthersKeep'),
+            ('DevRemovedUnwatched', 'chain-q', INV_C13, [], 'OwnFail')],
     # D19 and the raise on DONE -> FAILED lose notifications but leave what C14
     # states intact: the C14 invariants hold, PBatchComplete (no property) fails
     'C14': [('DevPBatchFirst',     'pilots-q', INV_C14, ['PFinalNotLeftAct'], None),
@@ -100,10 +108,10 @@ def _bool(b):
 def cfg_constants(sc, devs=()):
     c = ('CONSTANTS\n NT = %d\n NP = %d\n Tasks = %s\n UnknownTasks = %s\n Pilots = %s\n'
          ' UnknownPilots = %s\n PTypes = %s\n MaxBatch = %d\n MaxPBatch = %d\n BindAt = %d\n'
-         ' EarlyBind = %s\n DirectFinal = %s\n'
+ ' EarlyBind = %s\n DirectFinal = %s\n AllowRemove = %s\n'
          % (sc['NT'], sc['NP'], _set(sc['tasks']), _set(sc['unk']), _set(sc['pilots']),
             _set(sc['punk']), _set(sc['ptypes']), sc['mb'], sc['mpb'], sc['bindat'],
-            _bool(sc['early']), _bool(sc['direct'])))
+            _bool(sc['early']), _bool(sc['direct']), _bool(sc['remove'])))
     for d in DEVS:
         c += ' %s = %s\n' % (d, _bool(d in devs))
     return c
@@ -125,6 +133,7 @@ MCSIM = r'''---- MODULE MCSim ----
 EXTENDS ClientState
 VARIABLES pick, last
 Kinds == {"N", "B"} \cup (IF DirectFinal THEN {"F"} ELSE {}) \cup (IF MaxPBatch > 0 THEN {"P"} ELSE {})
+         \cup (IF AllowRemove THEN {"R"} ELSE {})
 \* random batches (simulation only): one successor per batch length
 RandT(k) == [i \in 1 .. k |-> RandomElement(TEntries)]
 RandP(k) == [i \in 1 .. k |-> RandomElement(PEntries)]
@@ -139,6 +148,8 @@ SimNext ==
      /\ \E p \in Pilots : PilotFinal(p) /\ last' = <<"final", p>>
   \/ /\ pick = "P" /\ pick' = "none"
      /\ \E k \in 1 .. MaxPBatch : \E b \in {RandP(k)} : PNotify(b) /\ last' = <<"pnotify", b>>
+  \/ /\ pick = "R" /\ pick' = "none"
+     /\ \E p \in Pilots : RemovePilots(p) /\ last' = <<"remove", p>>
   \/ /\ pick # "none" /\ pick' = "none" /\ last' = <<"skip">> /\ UNCHANGED vars
 SimSpec == SimInit /\ [][SimNext]_<<vars, pick, last>>
 ====
@@ -164,7 +175,9 @@ def ops_from_behaviour(path, rng):
         if not isinstance(last, list) or not last or last[0] == 'skip':
             continue
         if last[0] == 'notify':
-            ops.append(['notify', [[e[0], e[1]] for e in last[1]]])
+            ops.append(['notify', [[e[0], e[1], random_tdoc(rng)] for e in last[1]]])
+        elif last[0] == 'remove':
+            ops.append(['remove_pilots', rng.choice([last[1], [last[1]]])])
         elif last[0] == 'bind':
             ops.append(['bind', last[1], last[2]])
         elif last[0] == 'final':
@@ -200,6 +213,83 @@ def random_doc(rng):
         return rng.choice(DOCS)
     keys = rng.sample(sorted(R.PILOT_DOC_FIELDS), rng.randint(1, 3))
     return {k: rng.choice(R.PILOT_DOC_FIELDS[k]) for k in keys}
+
+
+def tdoc_variants():
+    fields = R.TASK_DOC_FIELDS
+    out = [{}]
+    for k in sorted(fields):
+        for v in fields[k]:
+            out.append({k: v})
+    out.append({k: None for k in fields})
+    # a task that failed on the agent and is handed back for output staging
+    out.append({'exception': fields['exception'][-1], 'exception_detail': fields['exception_detail'][-1],
+                'exit_code': 1, 'stderr': 'task stderr', 'target_state': 'FAILED'})
+    out.append({k: fields[k][-1] for k in fields})
+    return out
+
+
+TDOCS = tdoc_variants()
+
+
+def random_tdoc(rng):
+    if rng.random() < 0.6:
+        return {}
+    if rng.random() < 0.3:
+        return rng.choice(TDOCS)
+    keys = rng.sample(sorted(R.TASK_DOC_FIELDS), rng.randint(1, 3))
+    return {k: rng.choice(R.TASK_DOC_FIELDS[k]) for k in keys}
+
+
+def enum_taskdocs():
+    '''non-final tasks that already carry error information (every document
+       variant, at three states) when their pilot ends, on all three routes'''
+    init = {'t1': 'p1', 't2': 'p2'}
+    deaths = [['pilot_final', 'p1', PF, 'list', True], ['pilot_final', 'p1', PC, 'single', False],
+              ['pnotify', [['pilot', 'p1', PD]]]]
+    n = 0
+    for doc in TDOCS:
+        for s in (10, NT - 2, NT - 1):            # AGENT_EXECUTING, TMGR_STAGING_OUTPUT(_PENDING)
+            n += 1
+            ops = [['bind', 't3', 'p1'],
+                   ['notify', [['t1', s, doc], ['t2', s, doc], ['t3', s - 1, doc]]],
+                   ['notify', [['t3', s, TDOCS[n % len(TDOCS)]]]],
+                   deaths[n % 3],
+                   ['notify', [['t1', TD], ['t2', s + 1 if s + 1 < NT else TD]]]]
+            yield (['t1', 't2', 't3', 't4'], ['p1', 'p2'], init, ops)
+
+
+def enum_remove(quick):
+    '''remove_pilots in every order relative to late binding, progress and the
+       deaths of both pilots; tasks of a removed pilot are still its tasks'''
+    init  = {'t1': 'p1', 't2': 'p2'}
+    fixed = {'b': ['bind', 't3', 'p1'], 'n': ['notify', [['t1', 9], ['t2', 4], ['t4', 2]]]}
+    n = 0
+    for rm in (['remove_pilots', 'p1'], ['remove_pilots', ['p1']], ['remove_pilots', ['p2']],
+               ['remove_pilots', ['p1', 'p2']], ['remove_pilots', ['p2', 'p1']]):
+        for fin, route in ([(PF, 'pmgr'), (PC, 'list'), (PD, 'pmgr'), (PF, 'single')] if quick else
+                           itertools.product((PF, PC, PD), ('pmgr', 'list', 'single'))):
+            if True:
+                def death(pid, k):
+                    if route == 'pmgr':
+                        return ['pnotify', [['pilot', pid, fin, DOCS[(n + k) % len(DOCS)]]]]
+                    return ['pilot_final', pid, fin, route, k % 2 == 0]
+                for order in itertools.permutations(['b', 'n', 'r', 'd1', 'd2']):
+                    # a pilot that left or ended gets no new tasks; p1 ends before p2
+                    if order.index('b') > order.index('d1') or order.index('d1') > order.index('d2'):
+                        continue
+                    if 'p1' in ru_list(rm[1]) and order.index('b') > order.index('r'):
+                        continue
+                    n += 1
+                    ops = []
+                    for o in order:
+                        ops.append(rm if o == 'r' else death('p1', n) if o == 'd1'
+                                   else death('p2', n + 1) if o == 'd2' else fixed[o])
+                    yield (['t1', 't2', 't3', 't4'], ['p1', 'p2'], init, ops)
+
+
+def ru_list(x):
+    return x if isinstance(x, list) else [x]
 
 
 def enum_docs():
@@ -303,6 +393,10 @@ def enum_c13(quick):
             yield (['t1', 't2', 't3'], ['p1', 'p2'], init, ops + death)
     for case in enum_docs():
         yield case
+    for case in enum_taskdocs():
+        yield case
+    for case in enum_remove(quick):
+        yield case
 
 
 def enum_c14(quick):
@@ -363,15 +457,22 @@ def random_case(rng):
             b = []
             for _ in range(rng.choice([1, 1, 2, 2, 3, 4, 5])):
                 u = rng.choice(tasks + ['tx'])
-                b.append([u, _pick_state(rng, tst.get(u, 0), NT)])
+                b.append([u, _pick_state(rng, tst.get(u, 0), NT), random_tdoc(rng)])
             op = ['notify', b]
         elif r < 0.65:
             cand = [t for t in tasks if tst[t] < R.BIND_AT and (rig.tm._tasks[t].pilot is None)]
-            live = [p for p in pilots if pst[p] < NP and p not in dead_of(ops)]
+            live = [p for p in pilots if pst[p] < NP and p not in dead_of(ops)
+                    and p not in removed_of(ops)]
             if not cand or not live:
                 continue
             op = ['bind', rng.choice(cand), rng.choice(live)]
-        elif r < 0.75:
+        elif r < 0.70:
+            cand = [p for p in pilots if p not in removed_of(ops)]
+            if not cand:
+                continue
+            p  = rng.choice(cand)
+            op = ['remove_pilots', rng.choice([p, [p]])]
+        elif r < 0.78:
             live = [p for p in pilots if p not in dead_of(ops) and pst[p] < NP]
             if not live:
                 continue
@@ -391,6 +492,10 @@ def random_case(rng):
 
 def dead_of(ops):
     return set(op[1] for op in ops if op[0] == 'pilot_final')
+
+
+def removed_of(ops):
+    return set(p for op in ops if op[0] == 'remove_pilots' for p in ru_list(op[1]))
 
 
 # ------------------------------------------------------------------------------
@@ -446,8 +551,10 @@ def _nontrivial_keys(trace):
     pst  = {p: 0 for p in trace['pilots']}
     for e in trace['events']:
         if e['ev'] == 'Notify':
-            if any(u not in tst or s != tst[u] + 1 for u, s in e['batch']) or len(e['batch']) > 1:
-                keys.add(('N', tuple(sorted(tst.items())), tuple(map(tuple, e['batch']))))
+            docs = tuple(e.get('docs', []))
+            if any(u not in tst or s != tst[u] + 1 for u, s in e['batch']) or len(e['batch']) > 1 \
+                    or any(d != 'plain' for d in docs):
+                keys.add(('N', tuple(sorted(tst.items())), tuple(map(tuple, e['batch'])), docs))
         elif e['ev'] == 'PNotify':
             docs = tuple(e.get('docs', []))
             if any(ty != 'pilot' or p not in pst or s != pst[p] + 1 for ty, p, s in e['batch']) \
@@ -456,6 +563,9 @@ def _nontrivial_keys(trace):
             if e['calls']:
                 keys.add(('D', tuple(sorted(tst.items())), tuple(e['calls']),
                           tuple(sorted((u, e['tpost'][u]['pilot']) for u in tst))))
+        elif e['ev'] == 'RemovePilots':
+            keys.add(('R', tuple(sorted(tst.items())), tuple(e['pilots']),
+                      tuple(sorted((u, e['tpost'][u]['pilot']) for u in tst))))
         elif e['ev'] == 'PilotFinal':
             keys.add(('F', tuple(sorted(tst.items())), e['pilot'],
                       tuple(sorted((u, e['tpost'][u]['pilot']) for u in tst))))
@@ -466,8 +576,10 @@ def _nontrivial_keys(trace):
 
 # ------------------------------------------------------------------------------
 def _check_traces(chk, cases, label):
-    '''run the rig on every case, validate with the monitor, report'''
+    '''run the rig on every case, validate with the monitor (one TLC run for
+       all of them), report; label: one string, or one per case'''
     pid    = chk.pid
+    labels = [label] * len(cases) if isinstance(label, str) else label
     traces = [R.run_ops(t, p, i, ops, iso=(pid == 'C06')) for t, p, i, ops in cases]
     if not traces:
         return {}
@@ -477,7 +589,7 @@ def _check_traces(chk, cases, label):
     chk.transitions += st['transitions']
     chk.cmds.append(st['cmd'])
     notes = {}
-    for case, tr, errs in zip(cases, traces, res):
+    for case, tr, errs, label in zip(cases, traces, res, labels):
         chk.traces += 1
         for k in _nontrivial_keys(tr):
             chk.nontrivial.add(hash((pid, k)))
@@ -503,7 +615,7 @@ def run(chk, tier, seed):
     sq, st_, sims = PLAN[pid]
 
     # ---- 1. design model, exhaustive --------------------------------------------
-    for name in ([sq] if quick else [sq, st_]):
+    for name in (sq if quick else sq + st_):
         res = tlc.run('ClientState', 'ClientState', 'MC.cfg', workers=WORKERS, timeout=1500,
                       extra_files=mc_files(SCENARIOS[name]))
         chk.add_tlc(res, 'exhaustive:' + name)
@@ -555,23 +667,25 @@ def run(chk, tier, seed):
             shutil.rmtree(dump, ignore_errors=True)
     if not cases:
         raise Machinery('no TLC behaviour could be turned into operations')
-    notes = _check_traces(chk, cases, 'TLC behaviour')
+    labels = ['TLC behaviour'] * len(cases)
     chk.sample({'kind': 'tlc-behaviour', 'tasks': cases[0][0], 'pilots': cases[0][1],
                 'init_bound': cases[0][2], 'ops': cases[0][3][:8]})
 
     # ---- 4. exhaustive small-scope enumeration --------------------------------------
-    enum = {'C06': enum_c06, 'C13': enum_c13, 'C14': enum_c14}[pid]
-    cases = list(enum(quick))
-    for k, v in _check_traces(chk, cases, 'small-scope enumeration').items():
-        notes[k] = notes.get(k, 0) + v
-    chk.sample({'kind': 'enumeration', 'cases': len(cases), 'last_ops': cases[-1][3]})
+    enum  = {'C06': enum_c06, 'C13': enum_c13, 'C14': enum_c14}[pid]
+    more  = list(enum(quick))
+    chk.sample({'kind': 'enumeration', 'cases': len(more), 'last_ops': more[-1][3]})
+    cases  += more
+    labels += ['small-scope enumeration'] * len(more)
 
     # ---- 5. seeded random operation sequences ----------------------------------------
-    cases = [random_case(rng) for _ in range(400 if quick else 6000)]
-    cases = [c for c in cases if c[3]]
-    for k, v in _check_traces(chk, cases, 'seeded random').items():
-        notes[k] = notes.get(k, 0) + v
+    more = [random_case(rng) for _ in range(400 if quick else 6000)]
+    more = [c for c in more if c[3]]
+    cases  += more
+    labels += ['seeded random'] * len(more)
 
+    # ---- 6. all of them through the real code and the monitor ------------------------
+    notes = _check_traces(chk, cases, labels)
     for k in sorted(notes):
         chk.notes.append('%s: %d traces' % (k, notes[k]))
     chk.assumptions += [
